@@ -148,7 +148,10 @@ Definition runs {A} (m : W A) (w : world) : Prop := exists r w', m w = Val (r, w
 Definition covered_op (o : op) : bool :=
   match o with
   | OpSetComment _ _ | OpRemoveAttr _ _ | OpSetAttr _ _ _ | OpInsertCItem _ _ _ | OpRemoveCItem _ _ | OpRemoveCData _
-  | OpNewModel | OpCreateSub _ _ | OpCreateSubAt _ _ _ | OpGetOrCreate _ _ => true
+  | OpNewModel | OpCreateSub _ _ | OpCreateSubAt _ _ _ | OpGetOrCreate _ _
+  | OpCreateNamed _ _ _ | OpCreateNamedAt _ _ _ _ | OpGetOrCreateNamed _ _ _
+  | OpSetItemName _ _ | OpSetRefTarget _ _ | OpAddToFile _ _ | OpCreateFile _ _ _ => true
+  | OpSetCData _ v => match v with DFloat _ => false | _ => true end     (* f64::to_string is not modelled *)
   | _ => false
   end.
 Definition pending_op (o : op) : bool := negb (covered_op o).
